@@ -4,10 +4,12 @@ set -u
 PATCH=$1; shift
 git -C /repo status --porcelain --untracked-files=no | grep -q . && { echo "repo dirty"; exit 2; }
 git -C /repo apply "$PATCH" || { echo "patch does not apply"; exit 2; }
+EVBAK=$(mktemp -d); cp -r /verif/evidence/. $EVBAK/
 for P in "$@"; do
   echo "=== $P"
   python3 /verif/check.py $P --tier quick 2>&1 | grep -E "VIOLATION|KNOWN|->" | head -6
   echo "rc=${PIPESTATUS[0]}"
 done
 git -C /repo checkout -- .
+cp -r $EVBAK/. /verif/evidence/; rm -rf $EVBAK
 git -C /repo status --porcelain --untracked-files=no
